@@ -1007,3 +1007,230 @@ def a054_setup_logging(config):
 
     logger = logging.getLogger('pero_ocr')
     logger.setLevel(level)
+
+
+# reference for pero_ocr.decoding.decoders:CTCPrefixLogRawNumpyDecoder.__call__
+def a055_CTCPrefixLogRawNumpyDecoder___call__(self, logits, model_eos=False, max_unnormalization=1e-5, return_h=False, init_h=None):
+    ''' inspired by https://medium.com/corti-ai/ctc-networks-and-language-models-prefix-beam-search-explained-c11d1ee23306
+    '''
+    if logprobs_max_deviation(logits) > max_unnormalization:
+        raise ValueError('Expected properly normalized logits')
+
+    prefixes = [EMPTY_PREFIX]
+
+    if self._lm:
+        if init_h is None:
+            h_prev = self._lm.initial_h(1)
+        else:
+            h_prev = init_h
+        lm_preds = self._lm.log_probs(h_prev)
+    else:  # just to have them defined
+        h_prev = None
+        lm_preds = 0
+
+    Pb = np.asarray([0.0])
+    Pnb = np.asarray([self.LOG_ZERO_PROBABILITY])
+
+    if self._lm:
+        Plm = np.asarray([0.0])
+    else:
+        Plm = None
+
+    last_chars = np.zeros(Pb.shape, dtype=np.int32)
+
+    for t, Pc in enumerate(logits):
+        P_blank = Pc[-1]
+
+        selected_chars = self.select_relevant_logits(Pc[:-1])[0]
+        if selected_chars.shape[0] == 0:
+            Pb = self.compute_Pb(Pb, Pnb, P_blank)
+            Pnb[...] = self.LOG_ZERO_PROBABILITY
+            continue
+
+        reduced_Pc = self.get_reduced_Pc(Pc, selected_chars)
+        reduced_last_chars = self.get_reduced_last_chars(last_chars, selected_chars, reduced_Pc.shape[0]-1)
+
+        total_Pnb = self.compute_Pnb(Pnb, Pb, reduced_Pc, reduced_last_chars)
+        adjust_for_prefix_joining(total_Pnb, prefixes, reduced_last_chars)
+
+        total_Pb = self.compute_Pb(Pb, Pnb, P_blank)
+
+        visual_P = total_Pnb.copy()
+        visual_P[:, -1] = np.logaddexp(total_Pb, visual_P[:, -1])
+
+        randchar = np.asarray([-2, self._blank_ind])
+        selected_chars = np.concatenate([selected_chars, randchar])
+        if self._lm:
+            total_Plm = self.compute_Plm(Plm, lm_preds)[:, selected_chars]
+            total_P = visual_P + total_Plm * self._lm_scale
+        else:
+            total_P = visual_P
+
+        best_inds = top_k(total_P, k=min([self._k, np.sum(np.isfinite(total_P))]), reverse=True)
+
+        Pb = total_Pb[best_inds[0]]
+        Pb[best_inds[1] != total_P.shape[1]-1] = self.LOG_ZERO_PROBABILITY
+        Pnb = total_Pnb[best_inds]
+        if self._lm:
+            Plm = total_Plm[best_inds]
+
+        best_inds = best_inds[0], np.asarray([selected_chars[x] for x in best_inds[1]])
+
+        prefixes, last_chars = find_new_prefixes(last_chars, best_inds, prefixes, self._blank_ind)
+        h_prev, lm_preds = update_lm_things(self._lm, h_prev, lm_preds, best_inds, self._blank_ind)
+
+    if model_eos:
+        eos_scores = self._lm.eos_scores(h_prev)
+        Plm += eos_scores
+
+    Pom = np.logaddexp(Pb, Pnb)
+    bag_of_hypotheses = build_boh([self.symbol_separator.join(self._letters[i] for i in prefix) for prefix in prefixes], Pom, Plm, lm_weight=self._lm_scale)
+    if return_h:
+        idx_of_best = np.argmax(Pom + Plm*self._lm_scale)
+        return bag_of_hypotheses, h_prev[[idx_of_best]]  # a single-item list is needed to keep shape
+    else:
+        return bag_of_hypotheses
+
+
+# reference for pero_ocr.layout_engines.cnn_layout_engine:LineFilterEngine.predict_directions
+def a056_LineFilterEngine_predict_directions(self, image):
+    self.predictions = self.tiltnet.get_maps(image, self.downsample)
+
+
+# reference for user_scripts.parse_folder:main
+def a057_main():
+    # initialize some parameters
+    args = parse_arguments()
+    config_path = args.config
+    skip_already_processed_files = args.skip_processed
+
+    if not os.path.isfile(config_path):
+        print(f'ERROR: Config file does not exist: "{config_path}".')
+        exit(-1)
+
+    config = configparser.ConfigParser()
+    config.read(config_path)
+
+    if 'PARSE_FOLDER' not in config:
+        config.add_section('PARSE_FOLDER')
+
+    if args.input_image_path is not None:
+        config['PARSE_FOLDER']['INPUT_IMAGE_PATH'] = args.input_image_path
+    if args.input_xml_path is not None:
+        config['PARSE_FOLDER']['INPUT_XML_PATH'] = args.input_xml_path
+    if args.input_logit_path is not None:
+        config['PARSE_FOLDER']['INPUT_LOGIT_PATH'] = args.input_logit_path
+    if args.output_xml_path is not None:
+        config['PARSE_FOLDER']['OUTPUT_XML_PATH'] = args.output_xml_path
+    if args.output_render_path is not None:
+        config['PARSE_FOLDER']['OUTPUT_RENDER_PATH'] = args.output_render_path
+    if args.output_line_path is not None:
+        config['PARSE_FOLDER']['OUTPUT_LINE_PATH'] = args.output_line_path
+    if args.output_logit_path is not None:
+        config['PARSE_FOLDER']['OUTPUT_LOGIT_PATH'] = args.output_logit_path
+    if args.output_alto_path is not None:
+        config['PARSE_FOLDER']['OUTPUT_ALTO_PATH'] = args.output_alto_path
+
+    setup_logging(config['PARSE_FOLDER'])
+    logger = logging.getLogger()
+
+    device = get_device(args.device, args.gpu_id, logger)
+
+    page_parser = PageParser(config, config_path=os.path.dirname(config_path), device=device)
+
+    input_image_path = get_value_or_none(config, 'PARSE_FOLDER', 'INPUT_IMAGE_PATH')
+    input_xml_path = get_value_or_none(config, 'PARSE_FOLDER', 'INPUT_XML_PATH')
+    input_logit_path = get_value_or_none(config, 'PARSE_FOLDER', 'INPUT_LOGIT_PATH')
+
+    output_render_path = get_value_or_none(config, 'PARSE_FOLDER', 'OUTPUT_RENDER_PATH')
+    output_line_path = get_value_or_none(config, 'PARSE_FOLDER', 'OUTPUT_LINE_PATH')
+    output_xml_path = get_value_or_none(config, 'PARSE_FOLDER', 'OUTPUT_XML_PATH')
+    output_logit_path = get_value_or_none(config, 'PARSE_FOLDER', 'OUTPUT_LOGIT_PATH')
+    output_alto_path = get_value_or_none(config, 'PARSE_FOLDER', 'OUTPUT_ALTO_PATH')
+
+    if not page_parser.provides_ctc_logits and not input_logit_path and output_alto_path:
+        logging.error(f'Cannot create ALTO with current PageParser (transformer outputs are incompatible)')
+        sys.exit(2)
+
+    if not page_parser.provides_ctc_logits and output_logit_path:
+        logging.error(f'Cannot store logits with current PageParser (transformer outputs are incompatible)')
+        sys.exit(2)
+
+    if output_render_path is not None:
+        create_dir_if_not_exists(output_render_path)
+    if output_line_path is not None:
+        create_dir_if_not_exists(output_line_path)
+    if output_xml_path is not None:
+        create_dir_if_not_exists(output_xml_path)
+    if output_logit_path is not None:
+        create_dir_if_not_exists(output_logit_path)
+    if output_alto_path is not None:
+        create_dir_if_not_exists(output_alto_path)
+
+    if input_logit_path is not None and input_xml_path is None:
+        input_logit_path = None
+        logger.warning('Logit path specified and Page XML path not specified. Logits will be ignored.')
+
+    if input_image_path is not None:
+        logger.info(f'Reading images from {input_image_path}.')
+        ignored_extensions = ['', '.xml', '.logits']
+        images_to_process = [f for f in os.listdir(input_image_path) if
+                             os.path.splitext(f)[1].lower() not in ignored_extensions]
+        images_to_process = sorted(images_to_process)
+        ids_to_process = [os.path.splitext(os.path.basename(file))[0] for file in images_to_process]
+    elif input_xml_path is not None:
+        logger.info(f'Reading page xml from {input_xml_path}')
+        xml_to_process = [f for f in os.listdir(input_xml_path) if
+                          os.path.splitext(f)[1] == '.xml']
+        images_to_process = [None] * len(xml_to_process)
+        ids_to_process = [os.path.splitext(os.path.basename(file))[0] for file in xml_to_process]
+    else:
+        raise Exception(
+            f'Either INPUT_IMAGE_PATH or INPUT_XML_PATH has to be specified. Both are missing in {config_path}.')
+
+    if skip_already_processed_files:
+        # Files already processed are skipped. File is considered as already processed when file with appropriate
+        # extension is found in all required output directories. If any of the output paths is set to 'None'
+        # (i.e. the output is not required) than this directory is omitted.
+        already_processed_files = load_already_processed_files([output_xml_path, output_logit_path, output_render_path, output_alto_path])
+        if len(already_processed_files) > 0:
+            logger.info(f"Already processed {len(already_processed_files)} file(s).")
+
+            images_to_process = [image for id, image in zip(ids_to_process, images_to_process) if id not in already_processed_files]
+            ids_to_process = [id for id in ids_to_process if id not in already_processed_files]
+
+    if input_xml_path and args.skipp_missing_xml:
+        filtered_ids_to_process = []
+        filtered_images_to_process = []
+        for file_id, image_file_name in zip(ids_to_process, images_to_process):
+            file_path = os.path.join(input_xml_path, file_id + '.xml')
+            if os.path.exists(file_path):
+                filtered_ids_to_process.append(file_id)
+                filtered_images_to_process.append(image_file_name)
+        ids_to_process = filtered_ids_to_process
+        images_to_process = filtered_images_to_process
+
+    computator = Computator(page_parser, input_image_path, input_xml_path, input_logit_path, output_render_path,
+                            output_logit_path, output_alto_path, output_xml_path, output_line_path)
+
+    t_start = time.time()
+    results = []
+    if args.process_count > 1:
+        with Pool(processes=args.process_count) as pool:
+            tasks = []
+            for index, (file_id, image_file_name) in enumerate(zip(ids_to_process, images_to_process)):
+                tasks.append((image_file_name, file_id, index, len(ids_to_process)))
+            results = pool.starmap(computator, tasks)
+    else:
+        for index, (file_id, image_file_name) in enumerate(zip(ids_to_process, images_to_process)):
+            results.append(computator(image_file_name, file_id, index, len(ids_to_process)))
+
+    if args.output_transcriptions_file_path is not None:
+        with open(args.output_transcriptions_file_path, 'w') as f:
+            for page_lines in results:
+                print('\n'.join(page_lines), file=f)
+
+    if page_parser.decoder:
+        logger.info(page_parser.decoder.decoding_summary())
+    if ids_to_process:
+        logger.info(f'AVERAGE PROCESSING TIME {(time.time() - t_start) / len(ids_to_process)}')
